@@ -90,8 +90,8 @@ SUB_GEN = ("Needles: random over alphabets of 1/2/3/4/256 letters, periodic u^k,
            "(occurrence, prefix, suffix, periods, rotation, near miss, Rabin-Karp-hash-equal near miss, change invisible to the 32-bit rolling hash, "
            "run of the rarest byte, foreign run, needle-alphabet noise, >= 50 false prefilter candidates, long quiet prefix), cut to length classes "
            "(< needle, == needle, < 16, < 64, around the vector minimum, up to 4 KiB); dedicated generators for prefilter phases and for the "
-           "short-haystack prefilter fallback; bounded-exhaustive: every needle over {a,b} up to 8 (10 thorough) x every haystack up to 12 (16), "
-           "over {a,b,c} up to 5 x 8 (6 x 10), the longest cores also embedded at start/middle/end of 16/64/80-byte haystacks. ")
+           "short-haystack prefilter fallback; bounded-exhaustive: every needle over {a,b} up to 8 (9 thorough) x every haystack up to 12 (14), "
+           "over {a,b,c} up to 5 x 8 (5 x 9), the longest cores also embedded at start/middle/end of 16/64/80-byte haystacks. ")
 
 PLANS = {
     "C01": {
